@@ -6,6 +6,7 @@ import (
 	"reflect"
 	"regexp"
 	"strings"
+	"sync"
 	"time"
 	"unsafe"
 
@@ -262,6 +263,91 @@ func c14Shape(r *h.Result, rng *h.Rng, rounds int) error {
 	return nil
 }
 
+// c14Concurrent: translations of the same query text for different windows, issued concurrently through the
+// production entry point (logql_transpiler_v2.Transpile), must each render exactly what a translation done
+// alone renders — translation must not depend on what else the process is translating.
+func c14Concurrent(r *h.Result, rng *h.Rng, workers, perWorker int) {
+	r.Stream("concurrent: logql_transpiler_v2.Transpile + Process of the same query text for windows on different days from several goroutines at once vs the same translation done alone")
+	queries := []string{`{a="b"}`, `{a="b"} |= "x" | c="d"`, `sum by (a) (count_over_time({a="b"} |= "e" [5m]))`, `{a="b"} | json | x="1"`}
+	type job struct {
+		q        string
+		from, to int64
+		want     string
+	}
+	render := func(q string, from, to int64) (string, error) {
+		chain, err := logql_transpiler_v2.Transpile(q)
+		if err != nil {
+			return "", err
+		}
+		g := findGetter(reflect.ValueOf(chain), 0)
+		if g == nil {
+			return "", fmt.Errorf("no ClickHouse planner")
+		}
+		return renderWith(g.ClickhouseRequestPlanner, from, to, false)
+	}
+	var jobs []job
+	base := int64(1700000000+rng.Intn(100000)) * 1e9
+	for _, q := range queries {
+		for d := 0; d < 3; d++ {
+			from := base + int64(d)*2*86400e9
+			w, err := render(q, from, from+3600e9)
+			if err != nil {
+				r.Count("concurrent:plan-error")
+				continue
+			}
+			jobs = append(jobs, job{q, from, from + 3600e9, w})
+		}
+	}
+	if len(jobs) == 0 {
+		return
+	}
+	var mtx sync.Mutex
+	var wg sync.WaitGroup
+	bad := 0
+	var first *job
+	var got string
+	for w := 0; w < workers; w++ {
+		wg.Add(1)
+		seed := rng.U64()
+		go func() {
+			defer wg.Done()
+			defer func() {
+				if e := recover(); e != nil {
+					mtx.Lock()
+					bad++
+					if first == nil {
+						first, got = &job{q: "(any)", want: ""}, fmt.Sprintf("panic in a concurrent translation: %v", e)
+					}
+					mtx.Unlock()
+				}
+			}()
+			lr := h.NewRng(seed)
+			for i := 0; i < perWorker; i++ {
+				j := jobs[lr.Intn(len(jobs))]
+				t, err := render(j.q, j.from, j.to)
+				if err == nil && t != j.want {
+					mtx.Lock()
+					bad++
+					if first == nil {
+						jj := j
+						first, got = &jj, t
+					}
+					mtx.Unlock()
+				}
+			}
+		}()
+	}
+	wg.Wait()
+	r.Evaluations += workers * perWorker
+	r.Nontrivial[fmt.Sprintf("concurrent:%d-workers", workers)]++
+	r.CountN("concurrent:translations", workers*perWorker)
+	if first != nil {
+		r.CountN("concurrent:mismatches", bad)
+		r.Violate("C14/concurrent-translation/logql", fmt.Sprintf("%d of %d concurrent translations of %s rendered a statement different from the one rendered alone for the same window", bad, workers*perWorker, first.q),
+			map[string]any{"stream": "concurrent", "query": first.q, "from": first.from, "to": first.to, "alone": first.want, "concurrent": got})
+	}
+}
+
 func c14(r *h.Result, rng *h.Rng, tier string, replay string) error {
 	r.Rule = "reexec-model: generated log queries (≤3 matchers, ≤3 stages) × 2–5 executions with contexts advancing by 1–5 s (10 %: by a day); reexec-shape: 24 LogQL templates covering every stage kind, 7 TraceQL scripts, 3 Pyroscope selectors × 2 planners, × rounds; every case re-executes a real plan object at least twice (non-trivial); distinct by (query, contexts)"
 	n, rounds := 300, 2
@@ -271,5 +357,13 @@ func c14(r *h.Result, rng *h.Rng, tier string, replay string) error {
 	if err := c14Model(r, rng.Fork(), n); err != nil {
 		return err
 	}
-	return c14Shape(r, rng.Fork(), rounds)
+	if err := c14Shape(r, rng.Fork(), rounds); err != nil {
+		return err
+	}
+	if tier == "quick" {
+		c14Concurrent(r, rng.Fork(), 8, 400)
+	} else {
+		c14Concurrent(r, rng.Fork(), 16, 5000)
+	}
+	return nil
 }
